@@ -9,7 +9,8 @@ from ..runner import Acc, h8, scratch_dir
 
 LEVEL = "exploration"
 RULE = (
-    "all step configurations over a small adversarial alphabet (labels with and without workdir "
+    "(the executor's view: a real step built in the closed system under every value of its tracked variable, unset and "
+    "empty included, and two modes of its script, stored input digests compared) all step configurations over a small adversarial alphabet (labels with and without workdir "
     "suffix, shell flag, input maps of up to two entries over paths x digests x modes x sizes that "
     "contain the marker byte patterns, environment maps with undefined and empty values, override "
     "maps), every insertion order of every map; distinct configurations must have distinct digests "
@@ -95,8 +96,44 @@ def run_modebits(spec, acc):
                                "differing_bits": oct(prev ^ m)}, None)
 
 
+def run_executor(spec, acc):
+    """The digests as the executor assembles and stores them: the same step built from scratch in
+    the closed system under every value of its tracked variable (unset, empty, two values),
+    declared and amended, and with its input in two contents and two modes. Configurations that
+    differ must get different stored input digests, equal ones equal digests."""
+    from .. import projects
+    from ..dirx import fresh_world, session
+
+    seen = {}
+    for how in ("declared", "amended"):
+        for value in (None, "", "1", "2"):
+            for mode in (0o755, 0o700):
+                files = projects.f_env(how=how)
+                w = fresh_world(files, "c13x")
+                w.chmod("e.py", mode)
+                obs = session(w, {"njob": 1, "environ": {} if value is None else {"VERIF_X": value}})
+                w.destroy()
+                acc.evaluations += 1
+                acc.transitions += obs.nev
+                dg = None
+                for key, lines in obs.graph or ():
+                    if key == "step:./e.py":
+                        dg = next((ln.split("=", 1)[1].strip() for ln in lines if "inp_digest" in ln), None)
+                cfg = (how, value, mode)
+                acc.nontrivial.add(h8(["executor", cfg]))
+                if dg is None:
+                    acc.violation(f"C13|executor|no-digest|{cfg}", {"config": cfg, "rc": obs.rc_class}, None)
+                    continue
+                prev = seen.setdefault((how, dg), cfg)
+                if prev != cfg:
+                    acc.violation(f"C13|executor|inp-collision|{how}|{sorted([repr(prev[1:]), repr(cfg[1:])])}",
+                                  {"why": "two configurations of a real step share the stored input digest",
+                                   "a": prev, "b": cfg, "digest": dg}, None)
+
+
 def jobs(tier, seed):
-    out = [{"part": "files", "tier": tier}, {"part": "json", "tier": tier}, {"part": "modebits", "tier": tier}]
+    out = [{"part": "files", "tier": tier}, {"part": "json", "tier": tier}, {"part": "modebits", "tier": tier},
+           {"part": "executor", "tier": tier}]
     fv = len(file_values(tier))
     # step configurations, split by (label, shell) and by slices of the input maps
     for label in LABELS:
@@ -308,6 +345,8 @@ def run_job(spec):
         run_files(spec, acc)
     elif spec["part"] == "modebits":
         run_modebits(spec, acc)
+    elif spec["part"] == "executor":
+        run_executor(spec, acc)
     if seen:
         # one-ingredient neighbours are the non-trivial pairs: count configurations
         acc.nontrivial |= {h8(k) for k in list(seen)[:20000]}
